@@ -1100,7 +1100,7 @@ pub fn gen_sqlive(seed: u64, count: usize) -> Vec<String> {
 /// neighbourhood.  The bytecode generator's dead-store and zeroing-move passes must treat every
 /// pointer-moving or branching instruction as a barrier; this family places both stores around each
 /// kind of barrier (scans that really move, plain moves, loops, nested clears) for each small offset,
-/// with constant and input-dependent stores.  Deterministic (no seed), 128 programs.
+/// with constant and input-dependent stores; and, for the optimiser's own dead-store elimination, a store, an `if` that may overwrite it and a permutation of the cells.  Deterministic (no seed), 176 programs.
 pub fn gen_dse() -> Vec<String> {
     let prefix = "<<++>+++>+>++++>+++++<<";
     let at = |k: i32, body: &str| -> String {
@@ -1117,6 +1117,18 @@ pub fn gen_dse() -> Vec<String> {
                 for c in second {
                     out.push(format!("{}{}{}{}<<.>.>.>.>.", prefix, at(k, a), s, at(k, c)));
                 }
+            }
+        }
+    }
+    // the optimiser's own dead-store elimination: a store, an `if` that may overwrite one of the cells,
+    // then a permutation of the cells (mutually dependent assignments emitted as one group), then a dump
+    let stores = ["+++++>,<", ",>+++<", "+++++>++<", ",>,<"];
+    let ifs = ["<<<[-]+++++++>>>", "<<[-]+++++++>>", "<<<++>>>", "<[-]+>"];
+    let perms = ["[->>+<<]>[-<+>]>[-<+>]<<", "[->>+<<]>>>[-]<<[->>+<<]<[->+<]>>[-<<+>>]>[-<<+>>]<<<", "[->+>+<<]>>[-<<+>>]<<"];
+    for s in stores {
+        for i in ifs {
+            for p in perms {
+                out.push(format!("{}>>>,[{}[-]]<<<{}+.>+.>.", s, i, p));
             }
         }
     }
